@@ -265,7 +265,7 @@ def run_job(scratch, job, logdir, tier):
     # FAILED
     if not res["failed"]:
         job.status = "inconclusive"
-        if "Out of memory" in text or "std::bad_alloc" in text or "ran out of memory" in text:
+        if "Out of memory" in text or "std::bad_alloc" in text or "run out of memory" in text or "ran out of memory" in text:
             job.why = "CBMC out of memory (cap %d GB)" % mem
         else:
             job.why = "FAILED without failed checks (undetermined=%d)" % res["undetermined"]
